@@ -90,7 +90,8 @@ def _fork_run(scenario, scratch, start):
             os._exit(4)
     os.close(wfd)
     chunks = []
-    deadline = time.monotonic() + RUN_CAP_S
+    cap = float((scenario.get('env') or {}).get('run_cap_s') or RUN_CAP_S)
+    deadline = time.monotonic() + cap
     timed_out = False
     while True:
         left = deadline - time.monotonic()
@@ -110,7 +111,7 @@ def _fork_run(scenario, scratch, start):
         except ProcessLookupError:
             pass
         os.waitpid(pid, 0)
-        raise HarnessFailure('HARNESS-TIMEOUT', 'scenario exceeded %.0fs' % RUN_CAP_S)
+        raise HarnessFailure('HARNESS-TIMEOUT', 'scenario exceeded %.0fs' % cap)
     _, status = os.waitpid(pid, 0)
     code = os.waitstatus_to_exitcode(status)
     data = b''.join(chunks)
